@@ -70,7 +70,7 @@ def random_cases(ctx, count):
         fixed = r.random() < 0.12
         vocab = [r.choice(grams + [_s("zz"), _s("Aa")]) for _ in range(r.randint(0, 5))] if fixed else []
         st = {"lower": r.random() < 0.7, "norm": r.random() < 0.7,
-              "tok": r.choice(["default", "default", "re_w1", "re_s2", "fn_ws"]),
+              "tok": r.choice(["default", "default", "re_w1", "re_s2", "fn_ws", "re_b2"]),
               "nmin": nmin, "nmax": nmax, "dfmin": [a, den], "dfmax": [b, den],
               "hasstop": hasstop, "stop": stop, "cap": r.choice([-1, -1, -1, 0, 1, 2, 3, 5, 8]),
               "fixed": fixed, "vocab": vocab}
@@ -127,7 +127,7 @@ def run(ctx):
     ctx.nontrivial = len({json.dumps(t["inp"], sort_keys=True) for t in traces if _something_counted(t)})
     vlib.sample(ctx, [t for t in traces if t["inp"].get("fam") == "canon"][300:301]
                 + [t for t in traces if t["inp"].get("fam") == "dfwin" and len(t["inp"]["train"]) == 4][40:41])
-    vlib.validate_with_findings(ctx, "Trace_Vectorizer", traces, constants=TRACE_CONST, chunk=2500, timeout=2400)
+    vlib.validate_with_findings(ctx, "Trace_Vectorizer", traces, constants=TRACE_CONST, chunk=4500, timeout=2400)
     ctx.extra.update(_cap_readings(ctx))
     ctx.extra["cases_per_family"] = {f: sum(1 for c in cases if c["inp"].get("fam") == f) for f in FAMS + ["random"]}
     ctx.rule = ("cases = corpora x settings enumerated by TLC (Gen_Vectorizer: families ngram, dfwin, cap, stop, canon, fixed, "
@@ -135,7 +135,7 @@ def run(ctx):
                 "recorded count matrix of the training corpus has a non-zero entry (or an idf case); distinct by input")
     ctx.trusted = ["TLC + CommunityModules Json",
                    "Unicode facts of the 8 non-ASCII code points of Vectorizer.tla!Alphabet (NFKD, lower-case, \\w, White_Space)",
-                   "harness mapping of tokenizer names to API values (default, \\w+, \\S\\S+, split_whitespace) in harness/src/bin/c17.rs",
+                   "harness mapping of tokenizer names to API values (default, \\w+, \\S\\S+, \\b[^ ][^ ]+\\b, split_whitespace) in harness/src/bin/c17.rs",
                    "Elem.LnInt table (self-checked by MC_Elem)"]
     ctx.assumptions = ["document frequency bounds are dyadic rationals (exact in f32), so 'on the bound' is decided exactly",
                        "'most frequent' under max_features is accepted for document frequency or corpus term frequency, ties arbitrary",
